@@ -5,6 +5,8 @@
 package main
 
 import (
+	"crypto/sha1"
+	"encoding/hex"
 	"bytes"
 	"bufio"
 	"encoding/json"
@@ -61,6 +63,40 @@ type tline struct {
 }
 
 var vopt = absval.Opt{AlwaysDec: true, FloatExact: true, FloatMid: true}
+
+// encv projects a value for the trace. TLC's JSON reader stops at 255 levels of nesting, so the projection of a deeply nested
+// value is replaced by a fingerprint of its canonical encoding (equal fingerprints = equal projections; the deep family
+// uses leaves with one representation only, so a difference of representation cannot hide in it).
+func encv(v any) any {
+	pv := vopt.Encode(v)
+	if nesting(pv) <= 120 {
+		return pv
+	}
+	jb, _ := json.Marshal(pv)
+	sum := sha1.Sum(jb)
+	return map[string]any{"t": "deep", "h": hex.EncodeToString(sum[:10]), "n": len(jb)}
+}
+
+func nesting(v any) int {
+	d := 0
+	switch t := v.(type) {
+	case map[string]any:
+		for _, e := range t {
+			if k := nesting(e); d < k {
+				d = k
+			}
+		}
+		return d + 1
+	case []any:
+		for _, e := range t {
+			if k := nesting(e); d < k {
+				d = k
+			}
+		}
+		return d + 1
+	}
+	return 0
+}
 
 func main() {
 	switch os.Args[1] {
@@ -213,6 +249,45 @@ func genCases(args []string) {
 			d := docs[k%len(docs)]
 			emit(d, "json", "lit", 0, chunksFor(d))
 		})
+	}
+	// (2b) deep nesting: container stacks kept as bit masks or fixed tables show beyond 64 / 128 / 256 open containers
+	for _, depth := range []int{40, 63, 64, 65, 66, 100, 129, 257, 300} {
+		if !*thorough && (depth == 40 || depth == 100 || depth == 257) {
+			continue
+		}
+		for pat := 0; pat < 5; pat++ {
+			var open, closers []byte
+			for i := 0; i < depth; i++ {
+				obj := false
+				switch pat {
+				case 1:
+					obj = true
+				case 2:
+					obj = i == 0 // an object outermost, arrays inside
+				case 3:
+					obj = i%2 == 0
+				case 4:
+					obj = i >= depth/2
+				}
+				if obj {
+					open = append(open, []byte("{\"k\":")...)
+					closers = append([]byte("}"), closers...)
+				} else {
+					open = append(open, '[')
+					closers = append([]byte("]"), closers...)
+				}
+			}
+			for _, leaf := range []string{"1", "\"x\"", "{\"a\":true}", "[]"} {
+				d := append(append(append([]byte{}, open...), leaf...), closers...)
+				emit(d, "json", "deep", 0, []string{"whole", "1", "7", "half", "dataerr:3"})
+				if pat == 2 && leaf == "1" {
+					// closed with the wrong kind of bracket at the outermost level
+					bad := append([]byte{}, d...)
+					bad[len(bad)-1] = ']'
+					emit(bad, "json", "deep-mut", 0, []string{"whole", "1"})
+				}
+			}
+		}
 	}
 	// (3) random JSON documents and mutations; (4) aligned to the 4096/8192-byte refill
 	g := &jgen{r: r}
@@ -557,7 +632,7 @@ func single(in []byte, kind string, chunks []string) []sgroup {
 		var pv any
 		key := o.fam + strconv.Itoa(o.r)
 		if o.r == 1 {
-			pv = vopt.Encode(o.v)
+			pv = encv(o.v)
 			jb, _ := json.Marshal(pv)
 			key += string(jb)
 		}
@@ -594,8 +669,8 @@ func multiCall(fam, api, chunk string, in []byte) (m mobs) {
 	}()
 	b := append([]byte{}, in...)
 	var docs []any
-	cb := func(v any) { docs = append(docs, vopt.Encode(v)) }
-	cbb := func(v any) bool { docs = append(docs, vopt.Encode(v)); return false }
+	cb := func(v any) { docs = append(docs, encv(v)) }
+	cbb := func(v any) bool { docs = append(docs, encv(v)); return false }
 	var err error
 	switch api {
 	case "oj.Parse+cb":
@@ -619,7 +694,7 @@ func multiCall(fam, api, chunk string, in []byte) (m mobs) {
 		}
 		close(ch)
 		for v := range ch {
-			docs = append(docs, vopt.Encode(v))
+			docs = append(docs, encv(v))
 		}
 	case "oj.ParseReader+cb":
 		p := oj.Parser{}
@@ -628,20 +703,20 @@ func multiCall(fam, api, chunk string, in []byte) (m mobs) {
 		h := &plib.BuildHandler{}
 		err = oj.Tokenize(b, h)
 		for _, d := range h.Docs() {
-			docs = append(docs, vopt.Encode(d))
+			docs = append(docs, encv(d))
 		}
 	case "oj.TokenizeLoad":
 		h := &plib.BuildHandler{}
 		err = oj.TokenizeLoad(plib.Chunked(b, chunk), h)
 		for _, d := range h.Docs() {
-			docs = append(docs, vopt.Encode(d))
+			docs = append(docs, encv(d))
 		}
 	case "gen.Parse+cb":
 		p := gen.Parser{}
-		_, err = p.Parse(b, func(n gen.Node) bool { docs = append(docs, vopt.Encode(simplify(n))); return false })
+		_, err = p.Parse(b, func(n gen.Node) bool { docs = append(docs, encv(simplify(n))); return false })
 	case "gen.ParseReader+cb":
 		p := gen.Parser{}
-		_, err = p.ParseReader(plib.Chunked(b, chunk), func(n gen.Node) bool { docs = append(docs, vopt.Encode(simplify(n))); return false })
+		_, err = p.ParseReader(plib.Chunked(b, chunk), func(n gen.Node) bool { docs = append(docs, encv(simplify(n))); return false })
 	case "sen.Parse+cb":
 		p := sen.Parser{}
 		_, err = p.Parse(b, cb)
@@ -652,13 +727,13 @@ func multiCall(fam, api, chunk string, in []byte) (m mobs) {
 		h := &plib.BuildHandler{}
 		err = sen.Tokenize(b, h)
 		for _, d := range h.Docs() {
-			docs = append(docs, vopt.Encode(d))
+			docs = append(docs, encv(d))
 		}
 	case "sen.TokenizeLoad":
 		h := &plib.BuildHandler{}
 		err = sen.TokenizeLoad(plib.Chunked(b, chunk), h)
 		for _, d := range h.Docs() {
-			docs = append(docs, vopt.Encode(d))
+			docs = append(docs, encv(d))
 		}
 	default:
 		panic("unknown multi api " + api)
